@@ -136,8 +136,12 @@ fn tok(id: u64, w: f64, seed: u64) -> String {
     format!("{}:{}:{}", id, fhx(w), hx(seed))
 }
 fn tok_sha(id: u64, w: f64) -> String {
-    let s = sha_words(id);
-    format!("{}:{}:{}:{}:{}:{}", id, fhx(w), hx(s[0]), hx(s[1]), hx(s[2]), hx(s[3]))
+    // the model computes the byte identity (Sig for u64), Sha512_256 and the from_seed words itself
+    format!("{}:{}:sha", id, fhx(w))
+}
+/// item whose generator seed is the FNV hash of the id: computed by the model's own FNV-1a
+fn tok_fnv(id: u64, w: f64) -> String {
+    format!("{}:{}:fnv", id, fhx(w))
 }
 
 fn emit(ctx: &mut Ctx, model: &str, name: &str, r: &Res) {
@@ -180,8 +184,8 @@ pub fn corr_opts(ctx: &mut Ctx, directed: bool) {
             if n > 1 { ctx.mark_nontrivial(); }
             ctx.op(&format!("pmh3 new a {} {}", m, INIT));
             for (id, w) in &items {
-                let sd = if nohash { seed_nohash(*id) } else { seed_fnv(*id) };
-                ctx.op(&format!("pmh3 item a {}", tok(*id, *w, sd)));
+                let t = if nohash { tok(*id, *w, seed_nohash(*id)) } else { tok_fnv(*id, *w) };
+                ctx.op(&format!("pmh3 item a {}", t));
             }
             let r = pmh3_items(m, &items, nohash);
             emit(ctx, "pmh3", "a", &r);
@@ -199,7 +203,7 @@ pub fn corr_opts(ctx: &mut Ctx, directed: bool) {
                 (h.get_signature().clone(), h.verif_registers())
             }));
             ctx.op(&format!("pmh3 new a {} {}", m, INIT));
-            for (id, w) in &items { ctx.op(&format!("pmh3 item a {}", tok(*id, *w, seed_fnv(*id)))); }
+            for (id, w) in &items { ctx.op(&format!("pmh3 item a {}", tok_fnv(*id, *w))); }
             emit(ctx, "pmh3", "a", &r);
             let mut imap: IndexMap<u64, f64> = IndexMap::new();
             let mut hmap: HashMap<u64, f64> = HashMap::new();
@@ -218,7 +222,7 @@ pub fn corr_opts(ctx: &mut Ctx, directed: bool) {
                 (h.get_signature().clone(), h.verif_registers())
             }));
             ctx.op(&format!("pmh3 new b {} {}", m, INIT));
-            for (id, w) in &order { ctx.op(&format!("pmh3 item b {}", tok(*id, *w, seed_fnv(*id)))); }
+            for (id, w) in &order { ctx.op(&format!("pmh3 item b {}", tok_fnv(*id, *w))); }
             emit(ctx, "pmh3", "b", &r);
         }
 
@@ -235,7 +239,7 @@ pub fn corr_opts(ctx: &mut Ctx, directed: bool) {
             ctx.count(&format!("batches={}", nb));
             ctx.op(&format!("pmh3 new a {} {}", m, INIT));
             for b in &batches {
-                let toks: Vec<String> = b.iter().map(|(id, w)| tok(*id, *w, seed_fnv(*id))).collect();
+                let toks: Vec<String> = b.iter().map(|(id, w)| tok_fnv(*id, *w)).collect();
                 ctx.op(&format!("pmh3 batch a {}", toks.join(" ")));
             }
             let r = pmh3a_batches(m, &batches);
@@ -250,7 +254,7 @@ pub fn corr_opts(ctx: &mut Ctx, directed: bool) {
                 (h.get_signature().clone(), h.verif_registers())
             }));
             ctx.op(&format!("pmh3 new b {} {}", m, INIT));
-            let toks: Vec<String> = order.iter().map(|(id, w)| tok(*id, *w, seed_fnv(*id))).collect();
+            let toks: Vec<String> = order.iter().map(|(id, w)| tok_fnv(*id, *w)).collect();
             ctx.op(&format!("pmh3 batch b {}", toks.join(" ")));
             emit(ctx, "pmh3", "b", &r2);
             // oracle: 3 == 3a (registers always; signature too unless an exact tie — then registers tell)
@@ -347,7 +351,7 @@ pub fn corr_opts(ctx: &mut Ctx, directed: bool) {
             };
             let r = run2(&items);
             ctx.op(&format!("pmh2 new a {} {}", m, INIT));
-            for (id, w) in &items { ctx.op(&format!("pmh2 item a {}", tok(*id, *w, seed_fnv(*id)))); }
+            for (id, w) in &items { ctx.op(&format!("pmh2 item a {}", tok_fnv(*id, *w))); }
             emit(ctx, "pmh2", "a", &r);
             // oracles for variant 2: order, duplicates, HashMap entry point
             let mut perm = items.clone();
@@ -432,16 +436,17 @@ pub fn corr_opts(ctx: &mut Ctx, directed: bool) {
     small_sweep(ctx);
     large_m_entry_points(ctx);
     long_streams(ctx);
+    sha_key_types(ctx);
 
     // ---------- edge: weight <= 0 ---------------------------------------------------------------------
     ctx.begin_case("pmh3 weight 0 (hash_item asserts) / pmh3a weight 0 (skipped)");
     let r = pmh3_items(4, &[(1, 1.0), (2, 0.0)], false);
     ctx.op("pmh3 new a 4 999999999999");
-    ctx.op(&format!("pmh3 item a {}", tok(1, 1.0, seed_fnv(1))));
-    ctx.line(&format!("pmh3 item a {}", tok(2, 0.0, seed_fnv(2))), if r.is_err() { "PANIC" } else { "ok" });
+    ctx.op(&format!("pmh3 item a {}", tok_fnv(1, 1.0)));
+    ctx.line(&format!("pmh3 item a {}", tok_fnv(2, 0.0)), if r.is_err() { "PANIC" } else { "ok" });
     let r = pmh3a_batches(4, &[vec![(1, 1.0), (2, 0.0), (3, 2.5)]]);
     ctx.op("pmh3 new b 4 999999999999");
-    ctx.op(&format!("pmh3 batch b {} {} {}", tok(1, 1.0, seed_fnv(1)), tok(2, 0.0, seed_fnv(2)), tok(3, 2.5, seed_fnv(3))));
+    ctx.op(&format!("pmh3 batch b {} {} {}", tok_fnv(1, 1.0), tok_fnv(2, 0.0), tok_fnv(3, 2.5)));
     emit(ctx, "pmh3", "b", &r);
     ctx.begin_case("pmh3 nbhash < 2 asserts");
     let r = catch(|| { let _ = ProbMinHash3::<u64, FnvHasher>::new(1, INIT); });
@@ -465,6 +470,59 @@ pub fn corr_opts(ctx: &mut Ctx, directed: bool) {
     }
 }
 
+
+/// ProbMinHash3aSha over every key type with a byte identity other than u64: Vec<u8>, String, Vec<u16>, Vec<u32>, with byte lengths
+/// 0 .. 130 (in particular exactly 32 = the seed length, 64 = the digest input block boundary / 2, 128 = one SHA-512 block):
+/// the model computes Sig bytes, Sha512_256 and the generator seed itself (Model/Sig.lean, Model/Hashers.lean)
+pub fn sha_key_types(ctx: &mut Ctx) {
+    let byte_lens: Vec<usize> = if ctx.quick() { vec![0, 1, 8, 16, 31, 32, 33, 64, 128] } else { vec![0, 1, 2, 4, 7, 8, 9, 16, 24, 31, 32, 33, 48, 63, 64, 65, 111, 112, 127, 128, 129, 130] };
+    for kt in ["vecu8", "string", "vecu16", "vecu32"] {
+        let width = match kt { "vecu16" => 2, "vecu32" => 4, _ => 1 };
+        for bl in &byte_lens {
+            if bl % width != 0 { continue; }
+            let nel = bl / width;
+            let m = [4usize, 16][(bl / 8) % 2];
+            let n = 12usize;
+            ctx.begin_case(&format!("pmh3asha keys={} key_bytes={} m={}", kt, bl, m));
+            ctx.mark_nontrivial();
+            ctx.count(&format!("sha key type {}", kt));
+            ctx.count(&format!("sha key bytes {}", bl));
+            // structured keys: zero-padded counters (the interesting case for anything that skips the digest), distinct
+            let mut keys: Vec<Vec<u64>> = Vec::new();
+            for i in 0..n {
+                let mut k: Vec<u64> = vec![if kt == "string" { 0x30 } else { 0 }; nel];
+                if nel > 0 { let last = nel - 1; k[last] = if kt == "string" { 0x30 + (i as u64 % 10) } else { i as u64 }; if nel > 1 && kt == "string" { k[last - 1] = 0x30 + (i as u64 / 10); } }
+                if nel == 0 && i > 0 { break; }      // only one key of length 0
+                keys.push(k);
+            }
+            let ws: Vec<f64> = (0..keys.len()).map(|i| 0.5 + (i % 5) as f64).collect();
+            let toks: Vec<String> = keys.iter().enumerate().map(|(i, k)| format!("{}:{}:{}:{}", i, fhx(ws[i]),
+                match kt { "vecu16" => "shav16", "vecu32" => "shav32", _ => "shav8" },
+                if k.is_empty() { "-".to_string() } else { k.iter().map(|x| x.to_string()).collect::<Vec<_>>().join(",") })).collect();
+            macro_rules! run { ($t:ty, $conv:expr, $init:expr) => {{
+                let conv = $conv;
+                let objs: Vec<$t> = keys.iter().map(|k| conv(k)).collect();
+                let mut imap: IndexMap<$t, f64> = IndexMap::new();
+                for (i, o) in objs.iter().enumerate() { imap.insert(o.clone(), ws[i]); }
+                catch(std::panic::AssertUnwindSafe(|| {
+                    let mut h = ProbMinHash3aSha::<$t>::new(m, $init);
+                    h.hash_weigthed_idxmap(&imap);
+                    let sig: Vec<u64> = h.get_signature().iter().map(|d| objs.iter().position(|o| o == d).map(|p| p as u64).unwrap_or(INIT)).collect();
+                    (sig, h.verif_registers())
+                }))
+            }}}
+            let r: Res = match kt {
+                "vecu8" => run!(Vec<u8>, |k: &Vec<u64>| k.iter().map(|x| *x as u8).collect::<Vec<u8>>(), vec![0xffu8; 3]),
+                "string" => run!(String, |k: &Vec<u64>| k.iter().map(|x| *x as u8 as char).collect::<String>(), "\u{1}init".to_string()),
+                "vecu16" => run!(Vec<u16>, |k: &Vec<u64>| k.iter().map(|x| *x as u16).collect::<Vec<u16>>(), vec![0xffffu16; 3]),
+                _ => run!(Vec<u32>, |k: &Vec<u64>| k.iter().map(|x| *x as u32).collect::<Vec<u32>>(), vec![0xffff_ffffu32; 3]),
+            };
+            ctx.op(&format!("pmh3 new a {} {}", m, INIT));
+            ctx.op(&format!("pmh3 batch a {}", toks.join(" ")));
+            emit(ctx, "pmh3", "a", &r);
+        }
+    }
+}
 
 /// one instance receiving MORE than 2^16 (+ 2^8) items: bookkeeping that counts items, resets or generations in a
 /// narrow integer shows only then; implementation only: two insertion orders (a heavy item first / at rank 2^16+1 ...)
@@ -579,7 +637,7 @@ pub fn small_sweep(ctx: &mut Ctx) {
         match variant {
             0 => {
                 ctx.op(&format!("pmh3 new a {} {}", m, INIT));
-                for (id, w) in &items { ctx.op(&format!("pmh3 item a {}", tok(*id, *w, seed_fnv(*id)))); }
+                for (id, w) in &items { ctx.op(&format!("pmh3 item a {}", tok_fnv(*id, *w))); }
                 let r = pmh3_items(m, &items, false);
                 emit(ctx, "pmh3", "a", &r);
             }
@@ -589,7 +647,7 @@ pub fn small_sweep(ctx: &mut Ctx) {
                 for (i, it) in items.iter().enumerate() { batches[i * nb / n].push(*it); }
                 ctx.op(&format!("pmh3 new a {} {}", m, INIT));
                 for b in &batches {
-                    let toks: Vec<String> = b.iter().map(|(id, w)| tok(*id, *w, seed_fnv(*id))).collect();
+                    let toks: Vec<String> = b.iter().map(|(id, w)| tok_fnv(*id, *w)).collect();
                     ctx.op(&format!("pmh3 batch a {}", toks.join(" ")));
                 }
                 let r = pmh3a_batches(m, &batches);
@@ -609,7 +667,7 @@ pub fn small_sweep(ctx: &mut Ctx) {
                     (h.get_signature().clone(), h.verif_registers())
                 }));
                 ctx.op(&format!("pmh2 new a {} {}", m, INIT));
-                for (id, w) in &items { ctx.op(&format!("pmh2 item a {}", tok(*id, *w, seed_fnv(*id)))); }
+                for (id, w) in &items { ctx.op(&format!("pmh2 item a {}", tok_fnv(*id, *w))); }
                 emit(ctx, "pmh2", "a", &r);
             }
         }
